@@ -1,6 +1,6 @@
 (* C08 - fits are equivariant under relabelling and changes of coordinates *)
 From Coq Require Import QArith List Bool Arith Permutation.
-From TW Require Import GJModel LSQ Rscale Shift Weights Clip ClipPerm Equivariance Unique EquivSim.
+From TW Require Import GJModel LSQ Rscale Shift Weights Clip ClipPerm Equivariance Unique EquivSim EquivScaleW Rscale2.
 Import ListNotations.
 Open Scope Q_scope.
 
@@ -58,6 +58,13 @@ Theorem C08_weight_scale_shift : forall k l, 0 < k -> 0 < sumQ pw l ->
   fst (fit_shift (map (scale_w k) l)) == fst (fit_shift l) /\
   snd (fit_shift (map (scale_w k) l)) == snd (fit_shift l).
 Proof. exact shift_fit_scale_w. Qed.
+(* parameter level for the similarity family: same branch, matrix and shift after scaling all weights *)
+Theorem C08_weight_scale_similarity_params : forall k l, 0 < k -> 0 < sw l -> 0 < q2 l -> ~ detc l == 0 ->
+  let m' := model (map (scale_w k) l) in
+  sflip m' = sflip (model l) /\ sa m' == sa (model l) /\ sb_ m' == sb_ (model l) /\
+  s1 m' == s1 (model l) /\ s2 m' == s2 (model l).
+Proof. exact rscale_fit_scale_w_params. Qed.
+Print Assumptions C08_weight_scale_similarity_params.
 Theorem C08_weight_scale_rmse : forall k l a b c d e g, 0 < k -> 0 < sw l ->
   ssr_tot (map (scale_w k) l) a b c d e g / sw (map (scale_w k) l) == ssr_tot l a b c d e g / sw l.
 Proof. exact rmse2_scale_w. Qed.
